@@ -696,6 +696,36 @@ func ruleR11_1(c *Check) {
 	}
 }
 
+// everyElement: the statement at `site` runs for every element of the range loop rs: the loop
+// body has no break/return/goto and no continue before the site, and the site is under no
+// condition inside the loop.
+func everyElement(w *World, f *Fn, rs *ast.RangeStmt, site ast.Node) bool {
+	ok := true
+	ast.Inspect(rs.Body, func(n ast.Node) bool {
+		switch x := n.(type) {
+		case *ast.FuncLit:
+			return false
+		case *ast.BranchStmt:
+			if x.Tok == token.BREAK || x.Tok == token.GOTO || (x.Tok == token.CONTINUE && x.Pos() < site.Pos()) {
+				ok = false
+			}
+		case *ast.ReturnStmt:
+			ok = false
+		}
+		return true
+	})
+	if !ok {
+		return false
+	}
+	for _, g := range w.Guards(f, site) {
+		if g.At == nil || g.At.Pos() < rs.Body.Pos() || g.At.End() > rs.Body.End() {
+			continue // a condition outside the loop
+		}
+		return false
+	}
+	return true
+}
+
 func ruleR11_2(c *Check) {
 	w := c.W
 	r := c.Rule("R11.2", "E4", 3, "DB.MaxVersion takes the maximum over db.mt.maxVersion (unless read-only), every element of db.imm, and MaxVersion of every entry of db.Tables()",
@@ -719,12 +749,14 @@ func ruleR11_2(c *Check) {
 			for p := w.parentOf(call); p != nil; p = w.parentOf(p) {
 				if rs, ok := p.(*ast.RangeStmt); ok && w.fieldOf(rs.X) == w.Field("badger.DB.imm") {
 					srcs["imm"] = true
+					r.Check(everyElement(w, f, rs, call), f, "every immutable memtable takes part in the maximum", call, "the loop over db.imm is left early or the update is conditional: a memtable holding the highest version can be skipped")
 				}
 			}
 		case w.fieldOf(a) == w.Field("badger.TableInfo.MaxVersion"):
 			for p := w.parentOf(call); p != nil; p = w.parentOf(p) {
-				if rs, ok := p.(*ast.RangeStmt); ok && w.isCallTo(rs.X, w.Func("badger.DB.Tables")) {
+				if rs, ok := p.(*ast.RangeStmt); ok && (w.isCallTo(rs.X, w.Func("badger.DB.Tables")) || w.isCallTo(w.Origin(f, rs.X), w.Func("badger.DB.Tables"))) {
 					srcs["tables"] = true
+					r.Check(everyElement(w, f, rs, call), f, "every table of every level takes part in the maximum", call, "the loop over db.Tables() is left early or the update is conditional: versions are not ordered by level (an incremental StreamWriter load or a value-log GC write-back puts old versions above new ones), so a skipped table can hold the highest version")
 				}
 			}
 		}
